@@ -152,7 +152,7 @@ class BestEval(Unit):
         P.__call__ = stub_call
         try:
             empty0 = F.len == 0
-            kind, res = call_expecting(c, "C08.best_eval", lambda: pb.best_eval(pen), (), props=["C08"])
+            kind, res = call_expecting(c, "C08.best_eval", lambda: pb.best_eval(pen), ())
         finally:
             P.__call__ = saved
         F, M, X = pb._fun_filter, pb._maxcv_filter, pb._x_filter
